@@ -93,6 +93,14 @@ static void fl(void *p) { cif_loop_free((cif_loop_tp *) p); }
 static int noop_c(cif_container_tp *, void *) { return 0; }
 static int noop_i(UChar *, cif_value_tp *, void *) { return 0; }
 
+static const std::string &defective_doc() {
+    static const std::string d =
+        "#\\#CIF_2.0\ndata_d\n_x 1\n_X 2\nloop_ _a _A _b 1 2 3 4 5 6\nloop_ _c _d 1 2 3\n_m\n"
+        "save_f _f1 1 save_\nsave_F _f2 2 save_\nsave_g\x7f _g1 1 save_\nsave_G\x7f _g2 2 save_\n"
+        "data_D\n_y 'abc\n_t {k:1 'j' 2 :3 'm':}\n_l [1 2\n_r loop_\n_u 'a'b\n"
+        "data_e\x7f\n_v 1\ndata_E\x7f\n_w 2\nloop_ _z\ndata_h\nloop_ _p _q\n_s $ref\n_k\n;text\n";
+    return d;
+}
 static std::vector<Scenario> make_scenarios() {
     std::vector<Scenario> v;
     // ---- values
@@ -178,6 +186,10 @@ static std::vector<Scenario> make_scenarios() {
     v.push_back(Scenario{"cif_container_set_value(big list, existing looped)", 1 | 512, true, false, [](S &s, const Params &p) -> int { (void) s; (void) p;  return cif_container_set_value(s.blk, U(u"_l1"), s.val2);  }, [](S &s) { (void) s;  }});
     v.push_back(Scenario{"cif_value_set_item_by_key(key that NFC lengthens by one unit)", 64, false, false, [](S &s, const Params &p) -> int { (void) s; (void) p;  return cif_value_set_item_by_key(s.val, U(u"k\u0958"), s.val2);  }, [](S &s) { (void) s;  }});
     v.push_back(Scenario{"cif_value_get_item_by_key(key that NFC lengthens by one unit)", 64, false, false, [](S &s, const Params &p) -> int { (void) s; (void) p;  cif_value_tp *m = nullptr; int rc = cif_value_get_item_by_key(s.val, U(u"\u0f43x"), &m); return rc == CIF_NOSUCH_ITEM ? CIF_OK : rc;  }, [](S &s) { (void) s;  }});
+    // a document full of recoverable defects, every error accepted: the recovery paths (duplicate checks, re-opened containers, dropped
+    // columns, padded packets) allocate too
+    v.push_back(Scenario{"cif_parse(defective document, errors accepted, into existing)", 1, true, false, [](S &s, const Params &p) -> int { (void) p;  struct cif_parse_opts_s *o = nullptr; int rc = cif_parse_options_create(&o); if (rc != CIF_OK) return rc; o->error_callback = cif_parse_error_ignore; FILE *f = ph::mem_file(defective_doc()); cif_tp *t = s.cif; rc = cif_parse(f, o, &t); fclose(f); cm::ufree(o); return rc;  }, [](S &s) { (void) s;  }});
+    v.push_back(Scenario{"cif_parse(defective document, errors accepted, syntax only)", 0, false, false, [](S &s, const Params &p) -> int { (void) s; (void) p;  struct cif_parse_opts_s *o = nullptr; int rc = cif_parse_options_create(&o); if (rc != CIF_OK) return rc; o->error_callback = cif_parse_error_ignore; FILE *f = ph::mem_file(defective_doc()); rc = cif_parse(f, o, nullptr); fclose(f); cm::ufree(o); return rc;  }, [](S &s) { (void) s;  }});
     return v;
 }
 static const std::vector<Scenario> &scenarios() { static std::vector<Scenario> v = make_scenarios(); return v; }
@@ -245,13 +257,17 @@ static std::string run_case(const CaseFile &c) {
     }
     if (r0 != CIF_OK && r0 != CIF_FINISHED) { label("reference-call-failed"); return std::string("scenario ") + sc.name + " does not succeed without faults: " + cm::code_name(r0); }
     long n = sqlite_side ? n_sql : n_lib;
-    if (n > 400) n = 400;      // (parse/write of generated documents: bound the enumeration; the bound is reported)
-    note(sqlite_side ? "fault_points_sqlite" : "fault_points_library", only_k ? 1 : n);
+    // calls with more than 400 allocations (parse/write of documents): at most 400 fault points per case, spread evenly over
+    // the whole call with an offset drawn from the case (a, b) -- so that different cases cover different points and a run of
+    // many cases covers them all; the number enumerated is reported
+    long stride = 1, offset = 0;
+    if (n > 400) { stride = (n + 399) / 400; offset = (p.a * 10 + p.b) % stride; label("fault-points-sampled"); }
+    note(sqlite_side ? "fault_points_sqlite" : "fault_points_library", only_k ? 1 : (n - offset + stride - 1) / stride);
     if (n_lib >= 2) nontrivial(fnv(std::string(sc.name) + c.get("v1") + c.get("v2") + c.get("doc") + (sqlite_side ? "S" : "L")));
     // 2. one run per allocation, that allocation failing
     long last_k = 0;
-    for (long k = 1; k <= n && msg.empty(); k++) {
-        if (only_k && k != only_k) continue;
+    for (long k = only_k ? only_k : 1 + offset; k <= n && msg.empty(); k += stride) {
+        if (only_k && k != only_k) break;
         last_k = k;
         S s; if (!prepare(s, sc, p)) { msg = "fixture could not be rebuilt"; break; }
         std::string pre = (sc.needs & 2) ? std::string() : snapshot(s);
